@@ -450,8 +450,7 @@ Definition set_index (base : rep) (idx v : aval) : option (list wclass) :=
     | CErr => Some [WCast]
     | CUnk => None
     | CVal z =>
-      (* a negative index passes the test; str::operator[] then hands out a dummy cell *)
-      if size_of base <=? z then Some [WIndex]
+      if (z <? 0) || (size_of base <=? z) then Some [WIndex]
       else match char_cast v with
            | Some true => Some [] | Some false => Some [WCast] | None => None
            end
@@ -655,6 +654,25 @@ Definition method_effect (c : mcmd) (ls : list lclass) (arg : option aval) : opt
     end
   end.
 
+(* floatValue() == 0 of a representative that casts to a float *)
+Definition fzero_of (r : rep) : bool :=
+  match r with
+  | Ri0 | Rf0 | Rse | Rsa | Rsabc | Rst1 | Rsg | Rsno | Rssub | Rda | Rdabc => true
+  | _ => false
+  end.
+
+(* wait x: a cast error, or the thread is suspended; a wait of 0 is due at once: the thread is
+   resumed before the host's call returns, which looks like going on *)
+Definition wait_flow (a : aval) : option (list wclass * flow) :=
+  if float_ok (akind a) then
+    match a with
+    | Exact Rfm2h | Exact Rim1 | Exact Rimin => None     (* negative time: the cast is not defined *)
+    | Exact Ribig => None                                (* longer than any run of the harness *)
+    | Exact r => Some ([], if fzero_of r then FNext else FSuspend)
+    | OfKind _ => None
+    end
+  else Some ([WCast], FNext).
+
 Definition step_method (c : mcmd) (nargs : nat) (r : aval) (s : list aval) (m : mstate) : option mstate :=
   let arg := match nargs with O => None | S _ => hd_error s end in
   let rest := skipn nargs s in
@@ -677,13 +695,10 @@ Definition step_cmd (c : ccmd) (nargs : nat) (s : list aval) (m : mstate) : opti
     match c, arg with
     | CEnd, _ => Some (mkM rest (warn m) (lines m) FEnd)
     | CWait, Some a =>
-      if float_ok (akind a) then
-        match a with
-        | Exact Rfm2h | Exact Rim1 | Exact Rimin => None     (* negative time: the cast is not defined *)
-        | Exact _ => Some (mkM rest (warn m) (lines m) FSuspend)
-        | OfKind _ => None
-        end
-      else Some (mkM rest (warn m ++ [WCast]) (lines m) (fl m))
+      match wait_flow a with
+      | None => None
+      | Some (ws, f) => Some (mkM rest (warn m ++ ws) (lines m) f)
+      end
     | CGoto, Some a =>
       match label_of false a with
       | Some (LbErr w) => Some (mkM rest (warn m ++ [w]) (lines m) (fl m))
@@ -803,7 +818,34 @@ Definition comp_stmt (s : stmt) : list instr :=
 Definition exec_stmt (dbg : bool) (s : stmt) : option mstate :=
   run_code dbg (comp_stmt s) (mkM [] [] O FNext).
 
-Definition run_stmt (dbg : bool) (s : stmt) : option sobs :=
+(* Reading the size of a pending thread result, using it as a receiver or incrementing it
+   CLEARS every variable that holds it (ScriptPointer::Clear): a second use of the pending
+   result in the same statement then sees NIL or the pointer, depending on the order of the
+   opcodes.  The model does not follow that: a statement that mentions the pending result more
+   than once is not predicted. *)
+Fixpoint ptr_uses (e : expr) : nat :=
+  match e with
+  | ELeaf Rptr => 1%nat
+  | ELeaf _ => 0%nat
+  | EBin _ a b | ELogic _ a b | EIdx a b => (ptr_uses a + ptr_uses b)%nat
+  | EUn _ a | EFld a | ECall _ a => ptr_uses a
+  | EVec a b c => (ptr_uses a + ptr_uses b + ptr_uses c)%nat
+  | ECArr a rest => (ptr_uses a + fold_right (fun e n => ptr_uses e + n) 0 rest)%nat
+  end.
+Definition rep_is_ptr (r : rep) : nat := match r with Rptr => 1%nat | _ => 0%nat end.
+Definition opt_ptr_uses (o : option expr) : nat := match o with None => 0%nat | Some e => ptr_uses e end.
+Definition stmt_ptr_uses (s : stmt) : nat :=
+  match s with
+  | SPrint e | SAssign e | SIf e => ptr_uses e
+  | SSetIdx base i v => (rep_is_ptr base + ptr_uses i + ptr_uses v)%nat
+  | SSetFld r v => (ptr_uses r + ptr_uses v)%nat
+  | SInc _ r => rep_is_ptr r
+  | SMethod r _ arg => (ptr_uses r + opt_ptr_uses arg)%nat
+  | SCmd _ arg => opt_ptr_uses arg
+  end.
+Definition ptr_twice (s : stmt) : bool := Nat.leb 2 (stmt_ptr_uses s).
+
+Definition run_stmt0 (dbg : bool) (s : stmt) : option sobs :=
   match exec_stmt dbg s with
   | Some m => match stk m with
               | [] => Some (mkObs (warn m) (lines m) (fl m))
@@ -811,6 +853,9 @@ Definition run_stmt (dbg : bool) (s : stmt) : option sobs :=
               end
   | None => None
   end.
+
+Definition run_stmt (dbg : bool) (s : stmt) : option sobs :=
+  if ptr_twice s then None else run_stmt0 dbg s.
 
 (* what the harness can see of a thread: per statement
      ODone o   - started and finished (bracketing markers both printed), with o
